@@ -154,7 +154,13 @@ pub fn format_buf(args: Vec<Rc<Object>>) -> Result<Collector, String> {
         } else {
             '\0'
         };
-        if curr == '{' {
+        // inside a specifier, a '{' right before '<' or '>' is the fill character
+        let brace_is_fill = in_spec
+            && in_spec_format
+            && (next == '<' || next == '>')
+            && curr_spec_width.is_empty()
+            && matches!(curr_spec_just, SpecJustify::Default);
+        if curr == '{' && !brace_is_fill {
             if next == '{' {
                 write!(collector, "{{").map_err(|e| e.to_string())?;
                 idx_fmt += 2; // skip next brace as well
